@@ -3556,13 +3556,13 @@ impl LuaCommandAdapter {
     /// Execute command from Lua context with proper atomicity
     pub fn execute_lua_command(
         &self,
-        args: Vec<String>,
+        args: Vec<Vec<u8>>,
         db_index: usize,
     ) -> Result<RespFrame> {
-        // Convert string args to RESP frames for parsing
+        // Convert the (binary safe) args to RESP frames for parsing
         let frames: Vec<RespFrame> = args
             .into_iter()
-            .map(|s| RespFrame::bulk_string(s))
+            .map(RespFrame::from_bytes)
             .collect();
         
         // Lazy expiry, as for a command sent directly
